@@ -28,6 +28,11 @@ def JVal.pyFormat? : JVal → Option String
   | .null => some "None"
   | _ => none      -- float / list / dict repr: out of model
 
+/-- `v is True` -/
+def JVal.isTrue : JVal → Bool
+  | .bool true => true
+  | _ => false
+
 /-- Python truthiness of a JSON value -/
 def JVal.truthy : JVal → Bool
   | .null => false
